@@ -66,7 +66,17 @@ pub enum Op {
     CloneFrom { dst: u8, src: u8, panic_at: u8 },
     Encode { r: u8, fmt: Fmt, io: IoPlan, enc_fail_at: u8 },
     Decode { r: u8, fmt: Fmt, mutation: StreamMut, io: IoPlan, de_fail_at: u8, place: u8 },
-    VecConvert { r: u8, n: u8, form: u8, script: Vec<VAct>, spare: u8 },
+    VecConvert {
+        r: u8,
+        n: u8,
+        form: u8,
+        script: Vec<VAct>,
+        spare: u8,
+        /// also move the world's records of that variant into the vector (records with a past: written,
+        /// mutated, cloned, converted, partly uninitialised), not only fresh ones
+        #[serde(default)]
+        take_world: bool,
+    },
     /// clone (or clone_from onto a fresh twin) with a panic injected at the clone of every field in turn
     CloneSweep { r: u8, from: bool },
     /// decode the record's own encoding with every position of one fault kind in turn:
@@ -624,7 +634,7 @@ impl<'a, R: Rec> Engine<'a, R> {
         let mut removed: ObsList = alloc::harness(|| Vec::with_capacity(16));
         let new_rec = rec.convert(form, &mut self.src, &skip, &mut removed);
         let made = self.src.take_made();
-        let new_model = self.converted_model(&model, form, &made, &removed, 0, last);
+        let new_model = self.converted_model(&model, form, &made, &removed, 0, last, &[]);
         alloc::harness(|| {
             drop(made);
             drop(removed);
@@ -641,7 +651,7 @@ impl<'a, R: Rec> Engine<'a, R> {
     }
 
     /// the specified effect of a conversion on the model (+ checks on removed data)
-    fn converted_model(&mut self, model: &ModelRec, form: Form, made: &ObsList, removed: &ObsList, tag: usize, last: &'static str) -> ModelRec {
+    fn converted_model(&mut self, model: &ModelRec, form: Form, made: &ObsList, removed: &ObsList, tag: usize, last: &'static str, unobserved: &[bool]) -> ModelRec {
         let v = model.variant;
         let next = &self.meta.variants[v + 1];
         let mut new_model = alloc::harness(|| model.clone());
@@ -652,7 +662,7 @@ impl<'a, R: Rec> Engine<'a, R> {
             let old = model.fields[d];
             new_model.fields[d] = FState::Absent;
             if let FState::Val(o) = old {
-                if form.out() {
+                if form.out() && !unobserved.get(d).copied().unwrap_or(false) {
                     match removed.iter().find(|(t, dd, _)| *t == tag && *dd == d) {
                         Some((_, _, got)) if *got == o => {}
                         other => {
@@ -1370,7 +1380,7 @@ impl<'a, R: Rec> Engine<'a, R> {
         });
     }
 
-    fn do_vec_convert(&mut self, r: u8, n: u8, form: u8, script: &[VAct], spare: u8) {
+    fn do_vec_convert(&mut self, r: u8, n: u8, form: u8, script: &[VAct], spare: u8, take_world: bool) {
         let v = match self.idx(r) {
             Some(i) => self.world[i].model.variant,
             None => r as usize % self.meta.variants.len(),
@@ -1385,6 +1395,25 @@ impl<'a, R: Rec> Engine<'a, R> {
             // mandatory-only form leaves uninitialised: the Miri arm only uses the complete forms here
             form = if form.out() { Form::FullOut } else { Form::Full };
         }
+        // records with a past first, then fresh ones
+        let mut models: Vec<ModelRec> = alloc::harness(|| Vec::with_capacity(n + MAX_WORLD));
+        let mut recs: Vec<R> = Vec::with_capacity(n + MAX_WORLD + spare as usize % 3);
+        if take_world {
+            let mut k = 0;
+            while k < self.world.len() {
+                let uninit = self.world[k].model.fields.iter().any(|f| *f == FState::Uninit);
+                if self.world[k].model.variant == v && !(self.cfg.init_skipped && uninit) {
+                    let Live { slot, model } = self.world.remove(k);
+                    recs.push(slot.take());
+                    alloc::harness(|| models.push(model));
+                    self.probe("vec_convert_of_world_records");
+                } else {
+                    k += 1;
+                }
+            }
+        }
+        let taken = recs.len();
+        let n = n + taken;
         let script: Vec<VAct> = alloc::harness(|| {
             let mut faulted = false;
             (0..n)
@@ -1396,10 +1425,8 @@ impl<'a, R: Rec> Engine<'a, R> {
                 })
                 .collect()
         });
-        // n fresh records of variant v
-        let mut models: Vec<ModelRec> = alloc::harness(|| Vec::with_capacity(n));
-        let mut recs: Vec<R> = Vec::with_capacity(n + spare as usize % 3);
-        for _ in 0..n {
+        // fresh records of variant v
+        for _ in taken..n {
             self.src.take_made();
             let rec = R::new_full(v, &mut self.src, false);
             let made = self.src.take_made();
@@ -1410,7 +1437,8 @@ impl<'a, R: Rec> Engine<'a, R> {
             });
             recs.push(rec);
         }
-        let noskip: Vec<bool> = alloc::harness(|| vec![false; self.nfields()]);
+        // fields that are uninitialised in some record of the vector are not observed when handed back
+        let noskip: Vec<bool> = alloc::harness(|| (0..self.nfields()).map(|d| models.iter().any(|m| m.fields[d] == FState::Uninit)).collect());
         let mut removed: ObsList = alloc::harness(|| Vec::with_capacity(64));
         let mut log = alloc::harness(|| VecLog { calls: 0, produced_from: Vec::new(), same_buffer: true, same_capacity: true });
         self.src.take_made();
@@ -1437,7 +1465,7 @@ impl<'a, R: Rec> Engine<'a, R> {
                 let mut out_models: Vec<ModelRec> = alloc::harness(|| Vec::with_capacity(out.len()));
                 for &k in expected_from.iter() {
                     let m = alloc::harness(|| models[k].clone());
-                    let nm = self.converted_model(&m, form, &made, &removed, k, "vec_convert");
+                    let nm = self.converted_model(&m, form, &made, &removed, k, "vec_convert", &noskip);
                     alloc::harness(|| {
                         out_models.push(nm);
                         drop(m);
@@ -1560,7 +1588,7 @@ impl<'a, R: Rec> Engine<'a, R> {
                     extra = &["C15"];
                     self.do_decode(*r, *fmt, *mutation, *io, *de_fail_at, *place)
                 }
-                Op::VecConvert { r, n, form, script, spare } => self.do_vec_convert(*r, *n, *form, script, *spare),
+                Op::VecConvert { r, n, form, script, spare, take_world } => self.do_vec_convert(*r, *n, *form, script, *spare, *take_world),
                 Op::CloneSweep { r, from } => {
                     extra = &["C16"];
                     self.do_clone_sweep(*r, *from)
@@ -1805,7 +1833,7 @@ pub fn gen_ops(rng: &mut Rng, focus: Focus, faults: bool) -> Vec<Op> {
                         }
                     })
                     .collect();
-                Op::VecConvert { r, n, form: rng.below(4) as u8, script, spare: rng.below(3) as u8 }
+                Op::VecConvert { r, n, form: rng.below(4) as u8, script, spare: rng.below(3) as u8, take_world: rng.chance(1, 3) }
             }
         };
         ops.push(op);
@@ -1901,13 +1929,13 @@ pub fn gen_tour(meta: &DefMeta, faults: bool, light: bool, focus: Focus) -> Vec<
                     Op::Get { r: 0, stack: true },
                     Op::New { v: v8, uninit: true, place: 0, via_from: false },
                     Op::Convert { r: 1, form },
-                    Op::VecConvert { r: 0, n: 3, form, script: vec![VAct::Conv, VAct::Abandon, VAct::Conv], spare: 1 },
+                    Op::VecConvert { r: 0, n: 3, form, script: vec![VAct::Conv, VAct::Abandon, VAct::Conv], spare: 1, take_world: form % 2 == 1 },
                     Op::Drop { r: 0 },
                 ]);
             }
             if faults {
                 for (i, fault) in [VAct::ErrHolding, VAct::ErrDropped, VAct::PanicHolding, VAct::PanicConverted].into_iter().enumerate() {
-                    tours.push(vec![Op::New { v: v8, uninit: false, place: 0, via_from: false }, Op::VecConvert { r: 0, n: 3, form: i as u8, script: vec![VAct::Conv, fault, VAct::Conv], spare: 0 }]);
+                    tours.push(vec![Op::New { v: v8, uninit: false, place: 0, via_from: false }, Op::VecConvert { r: 0, n: 3, form: i as u8, script: vec![VAct::Conv, fault, VAct::Conv], spare: 0, take_world: false }]);
                 }
             }
         }
